@@ -724,6 +724,13 @@ func (w *walker) loopOnce(base *state, cond ast.Expr, post ast.Stmt, body *ast.B
 	rebind(b)
 	ndef := len(b.defers)
 
+	// ranging over a map or slice field reads it at every step of the iteration, not only once
+	rangeRead := func(s *state) {
+		if rng != nil && pureSelector(rng.X) {
+			w.expr(s, rng.X)
+		}
+	}
+	rangeRead(b)
 	fr := &frame{}
 	w.frames = append(w.frames, fr)
 	nfinBefore := len(w.finished)
@@ -798,6 +805,7 @@ func (w *walker) loopOnce(base *state, cond ast.Expr, post ast.Stmt, body *ast.B
 		x := base.clone()
 		x.items = append(x.items, callItem)
 		rebind(x)
+		rangeRead(x)
 		if cond != nil {
 			for _, c := range w.simple([]*state{x}, func(s *state) { w.expr(s, cond) }) {
 				exits = append(exits, c)
@@ -848,4 +856,15 @@ func pathKey(p []Item) string {
 		k += it.key() + ";"
 	}
 	return k
+}
+
+// pureSelector: x, x.f, x.f.g ... (re-evaluating it has no effect other than the reads)
+func pureSelector(e ast.Expr) bool {
+	switch x := unparen(e).(type) {
+	case *ast.Ident:
+		return true
+	case *ast.SelectorExpr:
+		return pureSelector(x.X)
+	}
+	return false
 }
